@@ -46,6 +46,23 @@ class C10(CleanBase):
                                                              b"[TestA - 1", b"[Test]", b"[TestA/b - c - 3]", b"[]", b"", b"[TestA - 1]]", b"[TestA -  2]"]))})
             cases.append({"ci": False, "updvar": "unset", "colour": False, "ops": ops,
                           "meta": {"mode": "ci=%s upd=%s sort=%s" % (ci, upd, sort), "ci": ci, "upd": upd, "sort": sort}})
+        # an addressed file that ENDS IN AN UNTERMINATED ENTRY and is examined BEFORE the default file: the rewrite of the files
+        # that follow must hold their own entries only (nothing read from the first file may reach them)
+        for i in range(n // 6):
+            r = rng.fork()
+            setup, run, info = self.gen_tree(r, sort_names=False)
+            tail = r.choice([b"left over line", b"stale line\nsecond stale line", b"[quoted - 1]\ntext"])
+            first = frame(b"TestFirst - 1", b"f1") + b"\n[TestFirst - 2]\n" + tail + r.choice([b"\n", b""])
+            cfg = [G.op_putfile(b"def/aaa_first.snap", first), G.op_newconfig(dir=b"def", fn=b"aaa_first")]
+            extra = []
+            for _ in range(info["count"]):
+                extra += [G.op_match_snap(1, b"TestFirst", [b"f1"]), G.op_end(b"TestFirst")]
+            ci, upd = r.choice([(False, "unset"), (False, "true"), (False, "clean"), (True, "clean")])
+            sort = r.chance(3, 4)
+            ops = setup + cfg + run + extra + [G.op_setenv(ci, upd), {"op": "dumpfs"}, {"op": "clean", "sort": sort, "count": info["count"], "colour": False}, {"op": "dumpfs"},
+                                               {"op": "clean", "sort": sort, "count": info["count"], "colour": False}, {"op": "dumpfs"}]
+            cases.append({"ci": False, "updvar": "unset", "colour": False, "ops": ops,
+                          "meta": {"mode": "unterminated-first", "ci": ci, "upd": upd, "sort": sort}})
         # large files (>= 13 entries: slices.SortFunc leaves its insertion-sort regime) whose ids hold numerals that do
         # not fit uint64 (natural.Less falls back to byte order there and the order has cycles). Outside the model's
         # domain (sort_nat stands for "a correct sort" only where the order is total): decided by the oracle alone.
@@ -131,6 +148,23 @@ class C10(CleanBase):
         if not needs_prune and not (sorting and (unsorted or any(overflowing(i) for i in ids0))):
             if ("mod:" + main) in cl[0][2]["writes"] or main in cl[0][2].get("touched", "-").split(","):
                 fails.append({"msg": "file needing neither pruning nor sorting was written: %s" % cl[0][2]["writes"]})
+        # the second addressed file (Config with Filename, gen_tree): the same content rule, judged on its own - its stale
+        # entries may carry the id of a live entry of the default file, and nothing of another file may appear in it
+        cfg0 = next((kv for n_, kv in ops if n_ == "newconfig"), None)
+        if cfg0 and cfg0.get("fn", "~") not in ("~", "-") and G.unhx_s(cfg0["fn"]) in ("aaa_second", "zzz_second"):
+            sec = hx(b"/S/def/" + G.unhx_s(cfg0["fn"]).encode("latin-1") + b".snap")
+            n2 = 0
+            for name, kv in ops:
+                if name == "clean":
+                    break
+                if name == "match" and kv["api"] == "snap" and kv["h"] == "1" and kv["test"] == hx(b"TestSecond"):
+                    n2 += 1
+            if sec in b0 and n2 >= cnt and n2 % cnt == 0:
+                s0, s1 = parse_entries(unhx(b0[sec])), parse_entries(unhx(b1.get(sec, "-")))
+                live2 = set(b"TestSecond - %d" % k for k in range(1, n2 // cnt + 1))
+                keep2 = [(i, b) for i, b in s0 if not (deletes and i not in live2)]
+                if sorted(s1) != sorted(keep2):
+                    fails.append({"msg": "second file: entries after Clean differ from the surviving entries: before %s, after %s" % (s0, s1)})
         # idempotence
         if b2 != b1 or cl[1][2]["writes"] != "-":
             fails.append({"msg": "second Clean changed something: writes=%s" % cl[1][2]["writes"]})
